@@ -7,20 +7,20 @@ Property theorems only. Model: `Snel.Model.Aggregate` (tied to the Rust aggregat
 `Snel.Lemmas.Aggregate`.
 
 Vocabulary. A *flow* is one `AggregateOp` (a shard's memtable flow or segment flow): a list of
-rows, each tagged with the path its batch took through the sink. `runFlows p zl flows` is the
-coordinator's table after all partial tables were merged (`zl i` fixes, per flow, the one
-iteration order the code leaves unspecified). `reportAt p t k` is the canonical form of the final table: the
-cells reported under key `k` (a finite map; the code sorts it for output). `spec m rs` is the
-reference fold of metric `m` over rows `rs`; `groupRows p flows k` are the rows whose final
-key is `k`.
+rows, each tagged with the path its batch took through the sink. `runFlows p flows` is the
+coordinator's table after all partial tables were merged. `reportAt p t k` is the canonical form
+of the final table: the cells reported under key `k` (a finite map; the code sorts it for
+output). `spec m rs` is the reference fold of metric `m` over rows `rs`; `groupRows p flows k` are
+the rows whose final key is `k`.
 
-Hypotheses of the `_partial` theorems, each the negation of a finding class:
-* `NoSplit p fl` — inside one flow every batch takes the same sink path (always true with
-  BY / PER; false when an un-grouped COUNT/TOTAL/AVG query meets a batch whose TOTAL/AVG column
-  is not all-integer next to one that is): see `C09_columnar_split_fails`.
-* `GoodFlow p fl` — cells are as `ColumnConverter` builds them (`tagFlow_wf`: always true) and
-  no MIN/MAX cell is blank (no integer reading and no string: a null in an all-null/int batch):
-  see `C09_partition_independent_fails`.
+Since repo commit 829ebe3 (`into_partial` merges sink groups that map to one partial key) the
+split of a flow between the sink's columnar and row paths no longer matters, so the former
+`NoSplit` hypothesis is gone. One hypothesis is left on the `_partial` theorems, the negation of
+finding class `minmax-null-as-empty`:
+* `GoodFlow p fl` — for the fields of MIN / MAX metrics, cells are as `ColumnConverter` builds them
+  (`tagFlow_wf`: always true) and never blank (no integer reading and no string: a null in an
+  all-null/int batch): see `C09_partition_independent_fails`. Plans without MIN / MAX need no
+  hypothesis at all: the `_no_minmax` theorems are at full strength for them.
 -/
 namespace Snel.Props.C09
 open Snel.Agg
@@ -59,11 +59,11 @@ theorem C09_homomorphism_partial (m : Metric) (xs ys : List Row) (hx : xs ≠ []
     (hnb : ∀ f, m.minMaxField = some f → ∀ r ∈ xs ++ ys, nonNull r f = true) :
     outOf m (St.merge (snapshot (fstate m xs)) (snapshot (fstate m ys))) = some (spec m (xs ++ ys)) ∧
     outOf m (snapshot (fstate m (xs ++ ys))) = some (spec m (xs ++ ys)) := by
-  have px := prep_snapshot m _ xs (rep_fstate m xs) (fun r hr => hwf r (by simp [hr]))
+  have px := prep_snapshot m _ xs (rep_fstate m xs) (fun _ _ r hr => hwf r (by simp [hr]))
     (fun f hf r hr => hnb f hf r (by simp [hr])) hx
-  have py := prep_snapshot m _ ys (rep_fstate m ys) (fun r hr => hwf r (by simp [hr]))
+  have py := prep_snapshot m _ ys (rep_fstate m ys) (fun _ _ r hr => hwf r (by simp [hr]))
     (fun f hf r hr => hnb f hf r (by simp [hr])) hy
-  have pxy := prep_snapshot m _ (xs ++ ys) (rep_fstate m _) hwf hnb (by simp [hx])
+  have pxy := prep_snapshot m _ (xs ++ ys) (rep_fstate m _) (fun _ _ => hwf) hnb (by simp [hx])
   exact ⟨out_of_prep m _ _ (prep_merge m _ _ _ _ px py), out_of_prep m _ _ pxy⟩
 
 /-- Inside one sink (no snapshot) the aggregator after `xs ++ ys` is the aggregator after `xs`
@@ -78,39 +78,45 @@ theorem C09_sink_fold (m : Metric) (xs ys : List Row) :
 /-- **Equals-fold, table level.** Whatever the split of the rows over flows (shards ×
 memory/segments) and batches: a group is reported iff some row has its key and the key is
 retained, and every reported cell is the reference fold over exactly the rows of that group.
-PARTIAL w.r.t. `NoSplit` / `GoodFlow` (see header). -/
-theorem C09_equals_fold_partial (p : Plan) (zl : Nat → Option Bool) (flows : List (List TRow))
-    (hns : ∀ fl ∈ flows, NoSplit p fl) (hg : ∀ fl ∈ flows, GoodFlow p fl) (k : Key) :
-    reportAt p (runFlows p zl flows) k =
+PARTIAL w.r.t. `GoodFlow` (see header). -/
+theorem C09_equals_fold_partial (p : Plan) (flows : List (List TRow))
+    (hg : ∀ fl ∈ flows, GoodFlow p fl) (k : Key) :
+    reportAt p (runFlows p flows) k =
       if retained p k && !(groupRows p flows k).isEmpty then
         some (p.metrics.map fun m => spec m (groupRows p flows k))
       else none :=
-  reportAt_spec p zl flows hns hg k
+  reportAt_spec p flows hg k
+
+/-- **Equals-fold at full strength for plans without MIN / MAX** (COUNT, COUNT f, COUNT UNIQUE,
+TOTAL, AVG, any BY / PER): no hypothesis on the data or on the split. -/
+theorem C09_equals_fold_no_minmax (p : Plan) (flows : List (List TRow))
+    (hp : ∀ m ∈ p.metrics, m.minMaxField = none) (k : Key) :
+    reportAt p (runFlows p flows) k =
+      if retained p k && !(groupRows p flows k).isEmpty then
+        some (p.metrics.map fun m => spec m (groupRows p flows k))
+      else none :=
+  reportAt_spec p flows (fun fl _ => goodFlow_of_no_minmax p fl hp) k
 
 /-- **Homomorphism, table level**: one flow over `xs ++ ys` and two flows `xs`, `ys` whose
 partial tables the coordinator merges give the same final table. -/
-theorem C09_homomorphism_table_partial (p : Plan) (zl : Nat → Option Bool) (xs ys : List TRow)
-    (hns : NoSplit p (xs ++ ys)) (hg : GoodFlow p (xs ++ ys)) (k : Key) :
-    reportAt p (runFlows p zl [xs ++ ys]) k = reportAt p (runFlows p zl [xs, ys]) k := by
-  have hx : NoSplit p xs := fun a ha b hb => hns a (by simp [ha]) b (by simp [hb])
-  have hy : NoSplit p ys := fun a ha b hb => hns a (by simp [ha]) b (by simp [hb])
-  have gx : GoodFlow p xs := ⟨fun t ht => hg.wf t (by simp [ht]), fun m hm f hf t ht => hg.noBlank m hm f hf t (by simp [ht])⟩
-  have gy : GoodFlow p ys := ⟨fun t ht => hg.wf t (by simp [ht]), fun m hm f hf t ht => hg.noBlank m hm f hf t (by simp [ht])⟩
-  rw [reportAt_spec p zl [xs ++ ys] (by simpa using hns) (by simpa using hg),
-    reportAt_spec p zl [xs, ys] (by simp [hx, hy]) (by simp [gx, gy])]
+theorem C09_homomorphism_table_partial (p : Plan) (xs ys : List TRow)
+    (hg : GoodFlow p (xs ++ ys)) (k : Key) :
+    reportAt p (runFlows p [xs ++ ys]) k = reportAt p (runFlows p [xs, ys]) k := by
+  have gx : GoodFlow p xs := ⟨fun m hm f hf t ht => hg.ok m hm f hf t (by simp [ht])⟩
+  have gy : GoodFlow p ys := ⟨fun m hm f hf t ht => hg.ok m hm f hf t (by simp [ht])⟩
+  rw [reportAt_spec p [xs ++ ys] (by simpa using hg), reportAt_spec p [xs, ys] (by simp [gx, gy])]
   have e : allRows [xs ++ ys] = allRows [xs, ys] := by simp [allRows]
   unfold groupRows
   rw [e]
 
 /-- **Partition independence.** Two runs over the same multiset of rows — any split over
-shards / memory / segments / batches, any arrival (merge) order of the partial tables, either
-iteration order — report the same table. PARTIAL (same hypotheses, on both runs). -/
-theorem C09_partition_independent_partial (p : Plan) (zl zl' : Nat → Option Bool) (flows flows' : List (List TRow))
+shards / memory / segments / batches, any arrival (merge) order of the partial tables —
+report the same table. PARTIAL (`GoodFlow` on both runs). -/
+theorem C09_partition_independent_partial (p : Plan) (flows flows' : List (List TRow))
     (hperm : (allRows flows).Perm (allRows flows'))
-    (hns : ∀ fl ∈ flows, NoSplit p fl) (hg : ∀ fl ∈ flows, GoodFlow p fl)
-    (hns' : ∀ fl ∈ flows', NoSplit p fl) (hg' : ∀ fl ∈ flows', GoodFlow p fl) (k : Key) :
-    reportAt p (runFlows p zl flows) k = reportAt p (runFlows p zl' flows') k := by
-  rw [reportAt_spec p zl flows hns hg, reportAt_spec p zl' flows' hns' hg']
+    (hg : ∀ fl ∈ flows, GoodFlow p fl) (hg' : ∀ fl ∈ flows', GoodFlow p fl) (k : Key) :
+    reportAt p (runFlows p flows) k = reportAt p (runFlows p flows') k := by
+  rw [reportAt_spec p flows hg, reportAt_spec p flows' hg']
   have hp : (groupRows p flows k).Perm (groupRows p flows' k) := hperm.filter _
   have he : (groupRows p flows k).isEmpty = (groupRows p flows' k).isEmpty := by
     rw [Bool.eq_iff_iff]
@@ -121,6 +127,15 @@ theorem C09_partition_independent_partial (p : Plan) (zl zl' : Nat → Option Bo
     List.map_congr_left fun m _ => spec_perm m hp
   rw [he, hs]
 
+/-- **Partition independence at full strength for plans without MIN / MAX**: any two splits of the
+same row multiset over shards, memory / segments, batches and sink paths report the same table. -/
+theorem C09_partition_independent_no_minmax (p : Plan) (flows flows' : List (List TRow))
+    (hp : ∀ m ∈ p.metrics, m.minMaxField = none)
+    (hperm : (allRows flows).Perm (allRows flows')) (k : Key) :
+    reportAt p (runFlows p flows) k = reportAt p (runFlows p flows') k :=
+  C09_partition_independent_partial p flows flows' hperm
+    (fun fl _ => goodFlow_of_no_minmax p fl hp) (fun fl _ => goodFlow_of_no_minmax p fl hp) k
+
 /-- The full statement (no hypothesis on blank MIN/MAX cells) is false of the code: a null in a
 batch whose column is all null/integer is ignored by MIN inside one sink, but becomes the
 candidate `""` once its group is snapshotted on its own. Same rows, two splits, two answers
@@ -128,32 +143,25 @@ candidate `""` once its group is snapshotted on its own. Same rows, two splits, 
 theorem C09_partition_independent_fails :
     ∃ (p : Plan) (flows flows' : List (List TRow)),
       (allRows flows).Perm (allRows flows') ∧
-      (∀ fl ∈ flows, NoSplit p fl) ∧ (∀ fl ∈ flows', NoSplit p fl) ∧
-      finalTable p (runFlows p (fun _ => some true) flows) ≠ finalTable p (runFlows p (fun _ => some true) flows') := by
+      finalTable p (runFlows p flows) ≠ finalTable p (runFlows p flows') := by
   let blank : Row := [some ⟨none, none⟩]
   let abc : Row := [some ⟨none, some "abc"⟩]
   refine ⟨⟨[.min 0], none, none, 0, true⟩, [[(false, blank), (false, abc)]],
-    [[(false, blank)], [(false, abc)]], ?_, ?_, ?_, ?_⟩
-  · exact List.Perm.refl _
-  · intro fl hfl; exact noSplit_of_same_tag _ _ (by simp at hfl; subst hfl; simp)
-  · intro fl hfl; exact noSplit_of_same_tag _ _ (by
-      simp at hfl; rcases hfl with rfl | rfl <;> simp)
-  · decide
+    [[(false, blank)], [(false, abc)]], List.Perm.refl _, ?_⟩
+  decide
 
-/-- Un-grouped COUNT/TOTAL/AVG: when one batch of a flow takes the columnar path and another
-the row path, the sink holds two groups that `into_partial` maps to the same key — one
-replaces the other. Two rows, COUNT reports 1 under either iteration order (only when the two
-keys happen to meet in the hash table, ≈ 1 run in 128, is the answer 2). (class
-`columnar-key-split`) -/
-theorem C09_columnar_split_fails :
-    ∃ (p : Plan) (fl : List TRow), ¬ NoSplit p fl ∧
-      ∀ z : Bool, reportAt p (runFlows p (fun _ => some z) [fl]) ⟨none, []⟩ = some [.int 1] ∧
-        spec .countAll (allRows [fl]) = .int 2 := by
-  refine ⟨⟨[.countAll], none, none, 0, true⟩, [(true, []), (false, [])], ?_, ?_⟩
-  · intro h
-    have := h (true, []) (by simp) (false, []) (by simp)
-    simp [sinkKey, Plan.hasGrouping] at this
-  · intro z; cases z <;> decide
+/-- Regression of finding `C09-columnar-split` (repaired by 829ebe3): an un-grouped COUNT whose
+flow has one batch on the columnar path and one on the row path holds two sink groups;
+`into_partial` now merges them, and COUNT reports both rows. (Before the repair one group replaced
+the other and the answer was 1.) The general statement is `C09_equals_fold_no_minmax`, which has no
+hypothesis on the sink paths. -/
+theorem C09_columnar_split_merged :
+    let p : Plan := ⟨[.countAll], none, none, 0, true⟩
+    let fl : List TRow := [(true, []), (false, [])]
+    (sinkAgg p fl).length = 2 ∧
+    reportAt p (runFlows p [fl]) ⟨none, []⟩ = some [.int 2] ∧
+    spec .countAll (allRows [fl]) = .int 2 := by
+  decide
 
 /-! ## every selected row is in exactly one group; LIMIT -/
 
@@ -161,15 +169,15 @@ theorem C09_columnar_split_fails :
 group under that key; and the rows of distinct groups are disjoint and together are all rows.
 PARTIAL: whether the group is *reported* additionally needs `retained`, see
 `C09_null_group_dropped_fails`. -/
-theorem C09_every_row_one_group_partial (p : Plan) (zl : Nat → Option Bool) (flows : List (List TRow))
-    (hns : ∀ fl ∈ flows, NoSplit p fl) (hg : ∀ fl ∈ flows, GoodFlow p fl) (r : Row) (hr : r ∈ allRows flows) :
-    (∃ sts, (runFlows p zl flows).get (finalKey p r) = some sts) ∧
+theorem C09_every_row_one_group_partial (p : Plan) (flows : List (List TRow))
+    (hg : ∀ fl ∈ flows, GoodFlow p fl) (r : Row) (hr : r ∈ allRows flows) :
+    (∃ sts, (runFlows p flows).get (finalKey p r) = some sts) ∧
     (∀ k, r ∈ groupRows p flows k ↔ k = finalKey p r) ∧
-    (retained p (finalKey p r) = true → (reportAt p (runFlows p zl flows) (finalKey p r)).isSome) := by
+    (retained p (finalKey p r) = true → (reportAt p (runFlows p flows) (finalKey p r)).isSome) := by
   have hmem : r ∈ groupRows p flows (finalKey p r) := by simp [groupRows, hr]
   refine ⟨?_, ?_, ?_⟩
-  · have h := runFlows_spec p zl flows hns hg (finalKey p r)
-    cases hget : (runFlows p zl flows).get (finalKey p r) with
+  · have h := runFlows_spec p flows hg (finalKey p r)
+    cases hget : (runFlows p flows).get (finalKey p r) with
     | some sts => exact ⟨sts, rfl⟩
     | none =>
       rw [hget] at h
@@ -180,7 +188,7 @@ theorem C09_every_row_one_group_partial (p : Plan) (zl : Nat → Option Bool) (f
     simp only [groupRows, List.mem_filter, hr, true_and, decide_eq_true_eq]
     exact eq_comm
   · intro hret
-    rw [reportAt_spec p zl flows hns hg, hret]
+    rw [reportAt_spec p flows hg, hret]
     have : (groupRows p flows (finalKey p r)).isEmpty = false := by
       cases h : groupRows p flows (finalKey p r) with
       | nil => rw [h] at hmem; cases hmem
@@ -192,7 +200,7 @@ missing field or the empty string. Those selected rows are in *no* reported grou
 `group-null-or-empty-dropped`) -/
 theorem C09_null_group_dropped_fails :
     ∃ (p : Plan) (flows : List (List TRow)) (r : Row), r ∈ allRows flows ∧
-      finalTable p (runFlows p (fun _ => some true) flows) = some [] := by
+      finalTable p (runFlows p flows) = some [] := by
   refine ⟨⟨[.countAll], some [0], none, 0, true⟩, [[(false, [some ⟨none, some ""⟩])]],
     [some ⟨none, some ""⟩], by simp [allRows], by decide⟩
 
@@ -208,12 +216,12 @@ theorem C09_limit_caps_groups {α : Type} (off lim : Option Nat) (rows : List α
 
 /-! ## where the fold itself departs from the ideal metric -/
 
-/-- The hypotheses of the `_partial` theorems that concern the converter always hold: every
-row `ColumnConverter` builds is well-formed, and with BY / PER a flow never splits. -/
+/-- What is always true of converter output: every row `ColumnConverter` builds is well-formed,
+and for a plan without MIN / MAX that is all `GoodFlow` asks. -/
 theorem C09_converter_hypotheses (p : Plan) (w : Nat) (batches : List (List (List Scalar))) :
     (∀ tr ∈ tagFlow p w batches, RowWF tr.2) ∧
-    (p.hasGrouping = true → NoSplit p (tagFlow p w batches)) :=
-  ⟨tagFlow_wf p w batches, noSplit_of_grouping p _⟩
+    ((∀ m ∈ p.metrics, m.minMaxField = none) → GoodFlow p (tagFlow p w batches)) :=
+  ⟨tagFlow_wf p w batches, goodFlow_of_no_minmax p _⟩
 
 /-- TOTAL is an i64 wrapping sum: on two large values it differs from the integer sum. (class
 `total-avg-i64-wrap`) -/
@@ -232,7 +240,7 @@ theorem C09_total_exact_partial (f : Nat) (rs : List Row)
 `2`. (class `total-avg-nonint-ignored`) -/
 theorem C09_nonint_total_fails :
     finalTable ⟨[.total 0, .avg 0], none, none, 9, true⟩
-      (runFlows ⟨[.total 0, .avg 0], none, none, 9, true⟩ (fun _ => some true)
+      (runFlows ⟨[.total 0, .avg 0], none, none, 9, true⟩
         [tagFlow ⟨[.total 0, .avg 0], none, none, 9, true⟩ 1 [[[.float "1.5"], [.int 2]]]]) =
       some [(⟨none, []⟩, [.int 2, .avg 2 1])] := by
   decide
@@ -243,15 +251,15 @@ string `""`) and 1 when the null sits in its own (all-null ⇒ typed) batch. (cl
 `count-field-null-in-string-column`) -/
 theorem C09_batching_fails :
     let p : Plan := ⟨[.countField 0], none, none, 9, true⟩
-    finalTable p (runFlows p (fun _ => some true) [tagFlow p 1 [[[.float "1.5"], [.null]]]]) = some [(⟨none, []⟩, [.int 2])] ∧
-    finalTable p (runFlows p (fun _ => some true) [tagFlow p 1 [[[.float "1.5"]], [[.null]]]]) = some [(⟨none, []⟩, [.int 1])] := by
+    finalTable p (runFlows p [tagFlow p 1 [[[.float "1.5"], [.null]]]]) = some [(⟨none, []⟩, [.int 2])] ∧
+    finalTable p (runFlows p [tagFlow p 1 [[[.float "1.5"]], [[.null]]]]) = some [(⟨none, []⟩, [.int 1])] := by
   decide
 
 /-- COUNT UNIQUE reads `get_str_at`, which answers `None` on a typed i64 column: three
 different integers count as one value (`""`). (class `count-unique-typed-int-column`) -/
 theorem C09_count_unique_int_fails :
     let p : Plan := ⟨[.countUnique 0], none, none, 9, true⟩
-    finalTable p (runFlows p (fun _ => some true) [tagFlow p 1 [[[.int 1], [.int 2], [.int 3]]]]) =
+    finalTable p (runFlows p [tagFlow p 1 [[[.int 1], [.int 2], [.int 3]]]]) =
       some [(⟨none, []⟩, [.int 1])] := by
   decide
 
@@ -277,17 +285,27 @@ theorem C09_fed_rows_fails :
 
 /-! ## non-vacuity -/
 
-/-- A concrete two-flow run that meets `NoSplit` and `GoodFlow`, with two groups, a null-free
-MIN column and a COUNT UNIQUE: the hypotheses of the `_partial` theorems are satisfiable and the
-result is not trivial. -/
+/-- A concrete two-flow run that meets `GoodFlow` (its MIN column has no null), with two groups,
+a MIN and a COUNT UNIQUE: the hypothesis of the `_partial` theorems is satisfiable and the result
+is not trivial. -/
 example :
     let p : Plan := ⟨[.countAll, .total 1, .min 1, .countUnique 0], some [0], none, 9, true⟩
     let fl1 : List TRow := tagFlow p 2 [[[.str "a", .int 5], [.str "b", .int 7]]]
     let fl2 : List TRow := tagFlow p 2 [[[.str "a", .int (-2)]]]
-    (∀ fl ∈ [fl1, fl2], NoSplit p fl) ∧
-    finalTable p (runFlows p (fun _ => some true) [fl1, fl2]) =
+    (∀ fl ∈ [fl1, fl2], GoodFlow p fl) ∧
+    finalTable p (runFlows p [fl1, fl2]) =
       some [(⟨none, ["a"]⟩, [.int 2, .int 3, .int (-2), .int 1]), (⟨none, ["b"]⟩, [.int 1, .int 7, .int 7, .int 1])] := by
-  refine ⟨fun fl _ => noSplit_of_grouping _ _ rfl, by decide⟩
+  refine ⟨?_, by decide⟩
+  intro fl hfl
+  refine ⟨?_⟩
+  intro m hm f hf tr htr
+  simp only [List.mem_cons, List.not_mem_nil, or_false] at hm hfl
+  have hwf : RowWF tr.2 := by
+    rcases hfl with rfl | rfl <;> exact tagFlow_wf _ _ _ tr htr
+  refine ⟨hwf, ?_⟩
+  clear hwf
+  rcases hm with rfl | rfl | rfl | rfl <;> simp only [Metric.minMaxField] at hf <;> try cases hf
+  rcases hfl with rfl | rfl <;> revert tr <;> decide
 
 example : (St.cnt 3).kind = (St.cnt 4).kind ∧ (St.uniq ["a"]).WF := by
   constructor
